@@ -138,7 +138,7 @@ def symbols_of(decl):
         st = CSYMBOL_TYPE_UNION if decl.get('union') else CSYMBOL_TYPE_STRUCT
         # the symbol carries the line on which the definition ends ("};"), as the real parser's
         # does (calibrated on tests/scanner/typedefs.h)
-        end = ln + 1 + len(decl['members'])
+        end = decl.get('end') or ln + 1 + len(decl['members'])
         return [FSym(st, decl['tag'], FType(ct, decl['tag'], None, build_members(decl['members'], f, ln)), f, end)]
     if k == 'typedef_struct':
         ct = CTYPE_UNION if decl.get('union') else CTYPE_STRUCT
